@@ -26,7 +26,7 @@ MAP
   END
   /* CH */
   LAYER
-    TYPE POINT # CI
+    TYPE POINT /* two comments on one line */ # CI
     # CJ
     VALIDATION
       "q" "r"
